@@ -120,6 +120,11 @@ def make_ds(case):
                                          if dims else arr(case["second"], 5)
                                          .reshape(()))},
                     coords=coords)
+    if len(dims) >= 2:
+        # (a variable that stores its axes in another order than the
+        # dataset lists its dimensions)
+        ds["vt"] = ds["v"].transpose(*dims[::-1]) if case["vdt"] != "str" \
+            else ds["v"].transpose(*dims[::-1]).copy()
     at = ATTRS[case["attrs"]]
     if at:
         ds.attrs.update(at)
@@ -293,6 +298,9 @@ def check_case(case):
                 os.rename(tmpn, name)
                 decoy.append(base)
             xyz.save_ds(ds, name, engine=eng)
+            if any(ds[v_].dims != orig[v_].dims for v_ in orig.data_vars):
+                vio.append((key("caller-dataset-changed"), "saving changed "
+                            "the dimension order of the caller's variables"))
             if listing() != [want_file]:
                 vio.append((key("file-name"), "saving %r wrote %r, expected %r"
                             % (case["name"], listing(), want_file)))
